@@ -38,7 +38,7 @@ func (in *Interp) instrumented(fn *ssa.Function) bool {
 			fn = fn.Parent()
 		}
 	}
-	return fn.Pkg != nil && fn.Pkg.Pkg.Path() == in.cfg.InstrPkg
+	return fn.Pkg != nil && (fn.Pkg.Pkg.Path() == in.cfg.InstrPkg || in.cfg.InstrMore[fn.Pkg.Pkg.Path()])
 }
 
 // spRecord appends the running goroutine to the trace if an SP is pending.
